@@ -1200,6 +1200,9 @@ class ClientObservation:
     class _Iterator:
         def __init__(self):
             self._future = asyncio.get_running_loop().create_future()
+            # An error that was pushed while the latest item had not been
+            # fetched yet; it is raised once that item has been handed out.
+            self._deferred_error = None
 
         def push(self, item):
             if self._future.done():
@@ -1209,6 +1212,18 @@ class ClientObservation:
 
         def push_err(self, e):
             if self._future.done():
+                if (
+                    not self._future.cancelled()
+                    and self._future.exception() is None
+                ):
+                    # The queue is lossy in that a newer item replaces an
+                    # older one, but the error ends the observation: it must
+                    # not replace the latest item (typically the final
+                    # response, which is pushed right before the error), or
+                    # that would never be seen unless the consumer happens to
+                    # be waiting at this very moment.
+                    self._deferred_error = e
+                    return
                 self._future = asyncio.get_running_loop().create_future()
             self._future.set_exception(e)
 
@@ -1221,6 +1236,9 @@ class ClientObservation:
                 # a quick second future comes in in a push?
                 if f is self._future:
                     self._future = asyncio.get_running_loop().create_future()
+                    if self._deferred_error is not None:
+                        self._future.set_exception(self._deferred_error)
+                        self._deferred_error = None
                 return result
             except (error.NotObservable, error.ObservationCancelled):
                 # only exit cleanly when the server -- right away or later --
